@@ -17,9 +17,10 @@ class Ctx:
     def facts(self, config='default'):
         if config not in self._facts:
             fresh = (self.tier == 'thorough') and not os.environ.get('VERIF_REUSE')
-            d, th, cached = extract(config, fresh=fresh and config not in self._facts)
+            import harness
+            fx, th, cached = harness.load_locked(Facts, config, fresh=fresh and config not in self._facts)
             self.tree = th
-            self._facts[config] = Facts(d)
+            self._facts[config] = fx
             self._facts[config].cached = cached
         return self._facts[config]
 
